@@ -2,6 +2,10 @@
 
 Units: GetDescriptorHandlerBlock, GetDescriptorHandlerDistributed, GetDescriptorHandlerMux(Block + Distributed), and the
 `start_position` advance of StandardRequestHandler (request/standard.py).
+Caller side (end of file, "parameter plumbing"): the same contract bodies re-proved on the handler INSTANCES inside the real
+USBControlEndpoint(max_packet_size=M).add_standard_request_handlers(descriptors, **kw) for non-default M, and inside
+USBDevice.add_standard_control_endpoint(descriptors, **kw): the parents' max packet size, descriptor collection and
+avoid_blockram choice reach the handlers they build.
 
 The handlers answer ONE packet per `start` strobe, for the request (value = type<<8|index, length = wLength,
 start_position = p).  The reference is the DeviceDescriptorCollection object (iterated in Python), never the ROM:
@@ -47,7 +51,11 @@ EXPLANATION = (
     "descriptor; (3) StandardRequestHandler builds both sub-collections with automatic_language_descriptor=True, so with "
     "runtime descriptors both handlers answer GET_DESCRIPTOR(STRING,0) and the stream is corrupted; (4) expecting_ack is not "
     "cleared when a request closes, so after a request whose last data packet was never ACKed an ACK observed before the "
-    "first data packet of the next GET_DESCRIPTOR advances start_position (the data stage then starts at offset max_packet).")
+    "first data packet of the next GET_DESCRIPTOR advances start_position (the data stage then starts at offset max_packet).  "
+    "Caller-side parameter plumbing: the per-packet contract and the start_position advance are re-proved (same bodies, unbounded) on "
+    "the handler instances inside the real USBControlEndpoint built with max_packet_size 8 / 16 (thorough: 32; block, distributed and "
+    "multiplexed variants) and inside USBDevice.add_standard_control_endpoint (EP0 size 64, keyword arguments passed down), with the "
+    "PARENT's parameter as the contract's max packet size and the collection handed to the parent as the reference.")
 ASSUMPTIONS = [
     "request fields (value, length, start_position) are held stable from start until the response (packet/ZLP/stall) ends",
     "no start strobe while a response is in progress (one IN token at a time)",
@@ -99,11 +107,20 @@ PORTS = lambda d: {"i_value": d.value, "i_length": d.length, "i_start": d.start,
 class PacketSpec:
     """Ghosts, requires and ensures shared by the three handler units (see module docstring)."""
 
-    def __init__(self, c, I, O, keys, maxpkt, k_data, k_stall, parent=None, tag="", settle=0):
+    def __init__(self, c, I, O, keys, maxpkt, k_data, k_stall, parent=None, tag="", settle=0, instance=False):
         """parent/tag: the contract of a sub-handler at its instance inside GetDescriptorHandlerMux.  It observes the
         instance's own tx/stall signals, shares the parent's latched request, adds no requires (its environment is the
-        mux's, related by the invariant `sub busy => mux busy`), and its ensures are lemmas named <tag>..."""
-        self.keys, self.maxpkt = keys, maxpkt
+        mux's, related by the invariant `sub busy => mux busy`), and its ensures are lemmas named <tag>...
+
+        instance=True: I / O are the terms of a handler INSTANCE's ports inside a real parent (parameter-plumbing obligations
+        at the end of this file).  Then (a) the vacuity guards are `Inv & Req & event` satisfiable instead of BMC from reset
+        through the whole parent; (b) "start_position is a multiple of max_packet" is not assumed -- the caller proves it as
+        an invariant of the parent's start_position register; (c) the requires are terms over the parent's STATE, so "the
+        environment also keeps its assumptions in the next cycle" (which the engine adds by itself only when a clause
+        mentions next-cycle INPUTS) is written out as a hypothesis of the one clause that looks a cycle ahead."""
+        self.keys, self.maxpkt, self.reach, self.instance = keys, maxpkt, not instance, instance
+        assume_offset_multiple = not instance
+        self.reqs = parent.reqs if parent else []
         ens = (lambda name, e, clause="": c.ensure(tag + name, e, clause="[sub-handler contract at its instance] " + clause)) \
             if parent else c.ensure
         busy = self.busy = c.ghost(tag + "busy", 1, init=0)
@@ -156,13 +173,14 @@ class PacketSpec:
             c.set_next(since, z3.If(self.start_accept, bvc(1, 3), z3.If(z3.ULT(since, settle), since + 1, since)))
             c.inv("since_bounded", z3.And(z3.ULE(since, settle), z3.Implies(self.isbusy, z3.Or(since == age, z3.UGE(since, 2)))))
             inflight = self.inflight = z3.Or(self.isbusy, z3.ULT(since, settle))
-        c.require("request_stable_while_busy", z3.Implies(inflight, z3.And(v_in == gv, l_in == gl, p_in == gp)),
+        require = lambda name, e, why: (self.reqs.append(e), c.require(name, e, why=why))
+        require("request_stable_while_busy", z3.Implies(inflight, z3.And(v_in == gv, l_in == gl, p_in == gp)),
                   why="the control request handler holds setup.value/length and start_position while a packet is being generated")
-        c.require("no_start_while_busy", z3.Implies(inflight, z3.Not(start)),
+        require("no_start_while_busy", z3.Implies(inflight, z3.Not(start)),
                   why="data_requested is a one-cycle strobe per IN token; the previous response has ended before the next token")
-        legal = z3.And(multiple(p_in, maxpkt),
+        legal = z3.And(multiple(p_in, maxpkt) if assume_offset_multiple else z3.BoolVal(True),
                        z3.Implies(self.exists, z3.Or(z3.ULT(p_in, T), z3.And(p_in == T, z3.ULT(T, l_in)))))
-        c.require("legal_continuation_offset", z3.Implies(self.start_accept, legal),
+        require("legal_continuation_offset", z3.Implies(self.start_accept, legal),
                   why="statement: 'read in max-packet-size pieces' by a host that stops after a short packet or after wLength bytes")
         # well-formedness of the latched request (follows from the requires; part of the invariant)
         legal_g = z3.And(multiple(gp, maxpkt), z3.ULT(gl, 1 << 16), z3.ULT(gp, 1 << 11),
@@ -201,14 +219,15 @@ class PacketSpec:
         ensure("zlp_when_total_is_multiple_of_packet_size",
                  z3.Implies(z3.And(self.isbusy, valid, self.exists, self.zlp), z3.And(z3.Not(first), last)),
                  clause="when the total is a non-zero multiple of the packet size below wLength, [the stage ends] with a zero-length packet")
-        ensure("byte_held_until_ready", z3.Implies(z3.And(data, z3.Not(ready)),
+        env_next = c.nx(z3.And(*self.reqs)) if self.instance and self.reqs else z3.BoolVal(True)
+        ensure("byte_held_until_ready", z3.Implies(z3.And(data, z3.Not(ready), env_next),
                                                      z3.And(c.nx(O["o_valid"]) == 1, c.nx(O["o_payload"]) == O["o_payload"])),
                  clause="all ready patterns: an offered byte is held until accepted")
         if not covers:
             return
-        c.cover("data_packet_completes", z3.And(data, last, ready))
-        c.cover("stall", stall)
-        c.cover("stall_on_offer_wait", z3.And(data, z3.Not(ready), cnt != 0))
+        c.cover("data_packet_completes", z3.And(data, last, ready), reach=self.reach)
+        c.cover("stall", stall, reach=self.reach)
+        c.cover("stall_on_offer_wait", z3.And(data, z3.Not(ready), cnt != 0), reach=self.reach)
         c.timeout_s = max(c.timeout_s, 240)       # the cover BMC unrolls every generator; allow for a loaded machine
 
     def _data(self, v, pos):
@@ -275,19 +294,27 @@ def _word_table(keys, v, wi):
     return e
 
 
+def block_body(c, ts, I, O, d, keys, maxpkt, prefix="", **kw):
+    """Contract of GetDescriptorHandlerBlock `d` observed at the port terms I / O: the unit alone (I, O = the netlist's ports),
+    or its instance at module path `prefix` inside a real parent (I, O = `instance_io(ts, d)`)."""
+    reach = not kw.get("instance", False)
+    s = PacketSpec(c, I, O, keys, maxpkt, k_data=4, k_stall=2, **kw)
+    block_invariants(c, ts, s, d, prefix=prefix)
+    c.cover("zlp", z3.And(s.isbusy, s.valid, s.zlp), reach=reach) if any(len(b) % maxpkt == 0 for b in s.keys.values()) else None
+    c.cover("second_packet", z3.And(s.isbusy, s.valid, s.gp != 0, z3.Not(s.zlp)), reach=reach) if any(len(b) > maxpkt for b in s.keys.values()) else None
+    c.cover("truncated_by_wlength", z3.And(s.isbusy, s.valid, s.last, z3.ULT(s.gl, s.LEN)), reach=reach)
+    if any(len(b) % maxpkt == 0 for b in s.keys.values()):
+        c.cover("zlp_requested", z3.And(s.start_accept, s.exists, s.zlp), reach=reach)
+    c.cover_depth = maxpkt + 8 if maxpkt <= 16 else 14
+    return s
+
+
 def make_block(coll_fn, maxpkt):
     def contract(c):
         coll = coll_fn()
         d = GetDescriptorHandlerBlock(coll, max_packet_length=maxpkt)
         ts = c.unit(d, PORTS(d))
-        s = PacketSpec(c, ts.inputs, ts.outputs, keys_of(coll), maxpkt, k_data=4, k_stall=2)
-        block_invariants(c, ts, s, d)
-        c.cover("zlp", z3.And(s.isbusy, s.valid, s.zlp)) if any(len(b) % maxpkt == 0 for b in s.keys.values()) else None
-        c.cover("second_packet", z3.And(s.isbusy, s.valid, s.gp != 0, z3.Not(s.zlp))) if any(len(b) > maxpkt for b in s.keys.values()) else None
-        c.cover("truncated_by_wlength", z3.And(s.isbusy, s.valid, s.last, z3.ULT(s.gl, s.LEN)))
-        if any(len(b) % maxpkt == 0 for b in s.keys.values()):
-            c.cover("zlp_requested", z3.And(s.start_accept, s.exists, s.zlp))
-        c.cover_depth = maxpkt + 8 if maxpkt <= 16 else 14
+        block_body(c, ts, ts.inputs, ts.outputs, d, keys_of(coll), maxpkt)
     return contract
 
 
@@ -318,6 +345,8 @@ def distributed_invariants(c, ts, s, coll, prefix="", tag=""):
         c.inv(tag + "zlp_is_answered_at_once", z3.Implies(zcase, age == 1))
     c.inv(tag + "count_zero_before_data", z3.Implies(z3.And(busy, age == 1), cnt == 0))
     for k, b in s.keys.items():
+        if k not in names:           # (instance inside a parent) a reference descriptor the handler was not built with: no map
+            continue
         g = prefix + names[k] + "."
         fsm = ts.fsm(g + "fsm_state")
         sreg = ts.sig(g + "start")
@@ -335,16 +364,23 @@ def distributed_invariants(c, ts, s, coll, prefix="", tag=""):
         c.inv(nm + "streaming_state", z3.Implies(fsm.is_("STREAMING"), z3.And(*conj)))
 
 
+def distributed_body(c, ts, I, O, coll, keys, maxpkt, prefix="", **kw):
+    """Contract of GetDescriptorHandlerDistributed (built over `coll`) at the port terms I / O; see block_body."""
+    reach = not kw.get("instance", False)
+    s = PacketSpec(c, I, O, keys, maxpkt, k_data=2, k_stall=0, **kw)
+    distributed_invariants(c, ts, s, coll, prefix=prefix)
+    c.cover("second_packet", z3.And(s.isbusy, s.valid, s.gp != 0, z3.Not(s.zlp)), reach=reach) if any(len(b) > maxpkt for b in s.keys.values()) else None
+    c.cover("truncated_by_wlength", z3.And(s.isbusy, s.valid, s.last, z3.ULT(s.gl, s.LEN)), reach=reach)
+    c.cover_depth = maxpkt + 8 if maxpkt <= 16 else 14
+    return s
+
+
 def make_distributed(coll_fn, maxpkt):
     def contract(c):
         coll = coll_fn()
         d = GetDescriptorHandlerDistributed(coll, max_packet_length=maxpkt)
         ts = c.unit(d, PORTS(d))
-        s = PacketSpec(c, ts.inputs, ts.outputs, keys_of(coll), maxpkt, k_data=2, k_stall=0)
-        distributed_invariants(c, ts, s, coll)
-        c.cover("second_packet", z3.And(s.isbusy, s.valid, s.gp != 0, z3.Not(s.zlp))) if any(len(b) > maxpkt for b in s.keys.values()) else None
-        c.cover("truncated_by_wlength", z3.And(s.isbusy, s.valid, s.last, z3.ULT(s.gl, s.LEN)))
-        c.cover_depth = maxpkt + 8 if maxpkt <= 16 else 14
+        distributed_body(c, ts, ts.inputs, ts.outputs, coll, keys_of(coll), maxpkt)
     return contract
 
 
@@ -373,44 +409,54 @@ def mux_of_request_handler(coll_fn):
     return build
 
 
+def mux_body(c, ts, I, O, ha, hb, ca, cb, keys, maxpkt, prefix="", pa=None, pb=None, **kw):
+    """Contract of GetDescriptorHandlerMux(Block `ha` over collection `ca`, Distributed `hb` over `cb`) at the port terms
+    I / O (see block_body); `keys` is the reference: the descriptors of the collection the multiplexer as a whole serves.
+    prefix / pa / pb: module paths (with trailing dot) of the multiplexer and of its two sub-handlers in the netlist."""
+    reach = not kw.get("instance", False)
+    ka, kb = keys_of(ca), keys_of(cb)
+    s = PacketSpec(c, I, O, keys, maxpkt, k_data=4, k_stall=2, settle=3, **kw)
+    sub_out = lambda h: {"o_valid": ts.of(h.tx.valid), "o_first": ts.of(h.tx.first), "o_last": ts.of(h.tx.last),
+                         "o_payload": ts.of(h.tx.payload), "o_stall": ts.of(h.stall)}
+    if pa is None:
+        pa = [p for p in ts.paths if p.endswith(".descriptor_length")][0].rsplit(".", 1)[0] + "."
+    if pb is None:
+        pb = [p for p in ts.paths if "USBDescriptorStreamGenerator" in p][0].split(".", 1)[0] + "."
+    sa = PacketSpec(c, I, sub_out(ha), ka, maxpkt, 4, 2, parent=s, tag="block.", **kw)
+    sb = PacketSpec(c, I, sub_out(hb), kb, maxpkt, 2, 0, parent=s, tag="dist.", **kw)
+    block_invariants(c, ts, sa, ha, prefix=pa, tag="block.")
+    distributed_invariants(c, ts, sb, cb, prefix=pb, tag="dist.")
+    la, lb = reg(ts, prefix + "stall_latch_0") == 1, reg(ts, prefix + "stall_latch_1") == 1
+    busy = s.isbusy
+    exa, exb = sa.exists, sb.exists                 # over the request each sub-handler is (or would be) serving
+    gexa = z3.Or(*[s.gv == k for k in ka])           # over the latched request
+    gexb = z3.Or(*[s.gv == k for k in kb])
+    since = s.since
+    # --- at most one (stale) latch is left over from the last transaction
+    c.inv("never_both_latched", z3.Not(z3.And(la, lb)))
+    # --- sub-handlers only work on the mux's latest request
+    c.inv("block_busy_own", z3.Implies(z3.And(sa.isbusy, gexa), z3.And(busy, sa.cnt == s.cnt, sa.age == s.age, z3.Not(la), lb)))
+    c.inv("block_busy_foreign", z3.Implies(z3.And(sa.isbusy, z3.Not(gexa)), z3.And(
+        sa.age == since, z3.ULE(since, 2), sa.cnt == 0, z3.Not(la), lb == z3.Not(gexb), z3.Implies(z3.Not(gexb), busy))))
+    c.inv("dist_busy_own", z3.Implies(sb.isbusy, z3.And(busy, gexb, sb.cnt == s.cnt, sb.age == s.age, z3.Not(lb))))
+    # --- and the mux-level transaction is carried by the owner
+    c.inv("owner_block", z3.Implies(z3.And(busy, gexa), sa.isbusy))
+    c.inv("owner_dist", z3.Implies(z3.And(busy, gexb), z3.And(sb.isbusy, z3.Or(sa.isbusy, la))))
+    c.inv("owner_nobody", z3.Implies(z3.And(busy, z3.Not(gexa), z3.Not(gexb)), z3.And(sa.isbusy, s.cnt == 0, s.age == since)))
+    c.cover("served_by_block", z3.And(s.take, sa.exists), reach=reach)
+    c.cover("served_by_distributed", z3.And(s.take, sb.exists), reach=reach)
+    c.cover("block_request_after_distributed_request", z3.And(s.start_accept, la, exa), reach=reach)   # stale latch of the block handler
+    c.cover_depth = 14
+    return s
+
+
 def make_mux(build, maxpkt):
     """GetDescriptorHandlerMux over a Block handler (collection A) and a Distributed handler (collection B).  The two
     handlers must hold disjoint descriptor sets (if they do not, both answer and the proof fails -- as it should)."""
     def contract(c):
         mux, ha, hb, ca, cb = build(maxpkt)
-        ka, kb = keys_of(ca), keys_of(cb)
         ts = c.unit(mux, PORTS(mux))
-        I, O = ts.inputs, ts.outputs
-        s = PacketSpec(c, I, O, {**ka, **kb}, maxpkt, k_data=4, k_stall=2, settle=3)
-        sub_out = lambda h: {"o_valid": ts.of(h.tx.valid), "o_first": ts.of(h.tx.first), "o_last": ts.of(h.tx.last),
-                             "o_payload": ts.of(h.tx.payload), "o_stall": ts.of(h.stall)}
-        pa = [p for p in ts.paths if p.endswith(".descriptor_length")][0].rsplit(".", 1)[0] + "."
-        pb = [p for p in ts.paths if "USBDescriptorStreamGenerator" in p][0].split(".", 1)[0] + "."
-        sa = PacketSpec(c, I, sub_out(ha), ka, maxpkt, 4, 2, parent=s, tag="block.")
-        sb = PacketSpec(c, I, sub_out(hb), kb, maxpkt, 2, 0, parent=s, tag="dist.")
-        block_invariants(c, ts, sa, ha, prefix=pa, tag="block.")
-        distributed_invariants(c, ts, sb, cb, prefix=pb, tag="dist.")
-        la, lb = reg(ts, "stall_latch_0") == 1, reg(ts, "stall_latch_1") == 1
-        busy = s.isbusy
-        exa, exb = sa.exists, sb.exists                 # over the request each sub-handler is (or would be) serving
-        gexa = z3.Or(*[s.gv == k for k in ka])           # over the latched request
-        gexb = z3.Or(*[s.gv == k for k in kb])
-        since = s.since
-        # --- at most one (stale) latch is left over from the last transaction
-        c.inv("never_both_latched", z3.Not(z3.And(la, lb)))
-        # --- sub-handlers only work on the mux's latest request
-        c.inv("block_busy_own", z3.Implies(z3.And(sa.isbusy, gexa), z3.And(busy, sa.cnt == s.cnt, sa.age == s.age, z3.Not(la), lb)))
-        c.inv("block_busy_foreign", z3.Implies(z3.And(sa.isbusy, z3.Not(gexa)), z3.And(
-            sa.age == since, z3.ULE(since, 2), sa.cnt == 0, z3.Not(la), lb == z3.Not(gexb), z3.Implies(z3.Not(gexb), busy))))
-        c.inv("dist_busy_own", z3.Implies(sb.isbusy, z3.And(busy, gexb, sb.cnt == s.cnt, sb.age == s.age, z3.Not(lb))))
-        # --- and the mux-level transaction is carried by the owner
-        c.inv("owner_block", z3.Implies(z3.And(busy, gexa), sa.isbusy))
-        c.inv("owner_dist", z3.Implies(z3.And(busy, gexb), z3.And(sb.isbusy, z3.Or(sa.isbusy, la))))
-        c.inv("owner_nobody", z3.Implies(z3.And(busy, z3.Not(gexa), z3.Not(gexb)), z3.And(sa.isbusy, s.cnt == 0, s.age == since)))
-        c.cover("served_by_block", z3.And(s.take, sa.exists))
-        c.cover("served_by_distributed", z3.And(s.take, sb.exists))
-        c.cover("block_request_after_distributed_request", z3.And(s.start_accept, la, exa))   # stale latch of the block handler
-        c.cover_depth = 14
+        mux_body(c, ts, ts.inputs, ts.outputs, ha, hb, ca, cb, {**keys_of(ca), **keys_of(cb)}, maxpkt)
     return contract
 
 
@@ -422,6 +468,83 @@ def coll_runtime():
 
 
 # ------------------------------------------------------------------------------------------------ start_position advance
+SRH_IN = {"s_received": lambda i: i.setup.received, "s_type": lambda i: i.setup.type, "s_request": lambda i: i.setup.request,
+          "s_value": lambda i: i.setup.value, "s_length": lambda i: i.setup.length,
+          "i_data_requested": lambda i: i.data_requested, "i_status_requested": lambda i: i.status_requested,
+          "i_ack": lambda i: i.handshakes_in.ack, "i_tx_ready": lambda i: i.tx.ready}
+SRH_OUT = {"o_tx_valid": lambda i: i.tx.valid, "o_tx_first": lambda i: i.tx.first, "o_tx_last": lambda i: i.tx.last,
+           "o_tx_payload": lambda i: i.tx.payload, "o_stall": lambda i: i.handshakes_out.stall,
+           "o_ack": lambda i: i.handshakes_out.ack, "o_pid": lambda i: i.tx_data_pid}
+
+
+def request_handler_body(c, ts, I, O, hd, maxpkt, prefix="", reach=True):
+    """Contract of StandardRequestHandler's GET_DESCRIPTOR handling (start_position / data PID advance) at the port terms
+    I / O of its RequestHandlerInterface (names: SRH_IN / SRH_OUT): the unit alone, or its instance at module path `prefix`
+    inside a real parent.  `hd` is the real descriptor handler object the request handler's elaborate() created."""
+    from usb_protocol.types import USBStandardRequests, USBRequestType
+    hsig = {"start": hd.start, "start_position": hd.start_position, "value": hd.value, "length": hd.length, "stall": hd.stall,
+            "valid": hd.tx.valid, "first": hd.tx.first, "last": hd.tx.last, "payload": hd.tx.payload, "ready": hd.tx.ready}
+    h = lambda n: ts.of(hsig[n])
+    R = lambda n: reg(ts, prefix + n)
+    received, dreq, sreq, ack = (I[n] == 1 for n in ("s_received", "i_data_requested", "i_status_requested", "i_ack"))
+    stall = O["o_stall"] == 1
+    gd = c.ghost("in_get_descriptor", 1, init=0)          # a GET_DESCRIPTOR request is open (setup seen, no status/stall yet)
+    epos = c.ghost("acked_bytes", 11, init=0)             # max_packet * number of ACKed data packets of this request
+    exp = c.ghost("packet_awaiting_ack", 1, init=0)       # a data packet of this request was started and not yet ACKed
+    pid = c.ghost("expected_pid", 1, init=1)
+    isgd = gd == 1
+    closes = z3.Or(sreq, stall)
+    advance = z3.And(isgd, ack, exp == 1)
+    c.set_next(gd, z3.If(isgd, z3.If(closes, bvc(0, 1), bvc(1, 1)), z3.If(received, bvc(1, 1), bvc(0, 1))))
+    c.set_next(epos, z3.If(z3.Not(isgd), bvc(0, 11), z3.If(advance, epos + maxpkt, epos)))
+    c.set_next(exp, z3.If(z3.Not(isgd), bvc(0, 1), z3.If(stall, bvc(0, 1), z3.If(advance, bvc(0, 1), z3.If(dreq, bvc(1, 1), exp)))))
+    c.set_next(pid, z3.If(z3.Not(isgd), bvc(1, 1), z3.If(advance, ~pid, pid)))
+    # (the request code only matters in the cycle of the `received` strobe: stated there, so that the same assumption can be
+    # made on the setup decoder's registers when the handler sits inside a real control endpoint, where they reset to 0)
+    c.require("only_get_descriptor_setups", z3.And(I["s_type"] == int(USBRequestType.STANDARD),
+                                                   z3.Implies(received, I["s_request"] == int(USBStandardRequests.GET_DESCRIPTOR))),
+              why="this contract covers GET_DESCRIPTOR handling only; other requests and their interleavings are C07/C10")
+    c.require("no_setup_inside_open_request", z3.Implies(isgd, z3.Not(received)),
+              why="a new SETUP during an unfinished request is the subject of C07")
+    fsm = ts.fsm(prefix + "fsm_state")
+    c.inv("fsm_legal", fsm.legal())
+    c.inv("state_is_get_descriptor_iff_open", fsm.is_("GET_DESCRIPTOR") == isgd)
+    c.inv("idle_otherwise", z3.Implies(z3.Not(isgd), fsm.is_("IDLE")))
+    c.inv("start_position_register", z3.Implies(isgd, R("start_position") == epos))
+    c.inv("start_position_register_is_multiple_of_max_packet", multiple(R("start_position"), maxpkt))
+    # expecting_ack must mean "a data packet of THIS request awaits its ACK".  (On the unchanged tree the register is not
+    # cleared when a request closes, so it can be stale-high from an earlier request whose last ACK never came; an ACK
+    # seen before the first data packet of the next GET_DESCRIPTOR then advances start_position: finding, fix in
+    # proposed_fixes/C09_expecting_ack_reset.diff.)
+    c.inv("expecting_ack_register", z3.Implies(isgd, R("expecting_ack") == exp))
+    c.inv("pid_register", z3.Implies(isgd, R("tx_data_pid") == pid))
+    c.ensure("start_position_is_acked_packets_times_max_packet", z3.Implies(isgd, h("start_position") == epos),
+             clause="read in max-packet-size pieces: start_position is 0 for the first packet of a request and advances by "
+                    "exactly max_packet_size for each ACKed data packet (and only then)")
+    c.ensure("start_position_is_multiple_of_max_packet", multiple(h("start_position"), maxpkt),
+             clause="read in max-packet-size pieces: the continuation offset given to the descriptor handler is always a multiple "
+                    "of max_packet_size (discharges that part of the descriptor handlers' `legal_continuation_offset` assumption)")
+    c.ensure("handler_started_once_per_data_request", (h("start") == 1) == z3.And(isgd, dreq),
+             clause="each IN token of the data stage starts exactly one packet of the descriptor handler")
+    c.ensure("request_fields_wired", z3.And(h("value") == I["s_value"], h("length") == I["s_length"]),
+             clause="any request (type, index, wLength): the handler sees the setup packet's wValue and wLength")
+    c.ensure("handler_output_forwarded", z3.Implies(isgd, z3.And(
+        O["o_tx_valid"] == h("valid"), O["o_tx_first"] == h("first"), O["o_tx_last"] == h("last"),
+        O["o_tx_payload"] == h("payload"), O["o_stall"] == h("stall"), h("ready") == I["i_tx_ready"])),
+             clause="the data stage is the handler's tx stream; a missing descriptor's stall becomes the STALL handshake")
+    c.ensure("silent_outside_get_descriptor", z3.Implies(z3.Not(isgd), z3.And(O["o_tx_valid"] == 0, O["o_stall"] == 0)),
+             clause="(frame) nothing is sent for a request that is not open")
+    c.ensure("data_pid_toggles_per_acked_packet", z3.Implies(isgd, O["o_pid"] == pid),
+             clause="(data toggle) DATA1 first, toggled once per ACKed packet")
+    c.cover("second_packet_started", z3.And(isgd, dreq, epos == maxpkt), reach=reach)
+    c.cover("third_packet_started", z3.And(isgd, dreq, epos == 2 * maxpkt), reach=reach)
+    c.cover("closed_by_stall", z3.And(isgd, stall), reach=reach)
+    c.cover("closed_by_status", z3.And(isgd, sreq, epos != 0), reach=reach)
+    c.cover_depth = 20
+    c.timeout_s = max(c.timeout_s, 240)
+    return isgd, epos
+
+
 def make_request_handler(coll_fn, maxpkt):
     """StandardRequestHandler (request/standard.py): during a GET_DESCRIPTOR request the descriptor handler is started once
     per data_requested with the setup's value/length, and start_position = max_packet_size * (number of data packets of this
@@ -429,73 +552,15 @@ def make_request_handler(coll_fn, maxpkt):
     Histories are restricted to standard GET_DESCRIPTOR setups (the interplay with other requests is C07/C10)."""
     def contract(c):
         from luna.gateware.usb.request.standard import StandardRequestHandler
-        from usb_protocol.types import USBStandardRequests, USBRequestType
         d = StandardRequestHandler(coll_fn(), max_packet_size=maxpkt, avoid_blockram=False)
         i = d.interface
         made = []                        # capture the handler instance the real elaborate() creates (to name its ports)
         factory = d.get_descriptor_handler_submodule
         d.get_descriptor_handler_submodule = lambda: (made.append(factory()), made[-1])[1]
-        ts = c.unit(d, {"s_received": i.setup.received, "s_type": i.setup.type, "s_request": i.setup.request,
-                        "s_value": i.setup.value, "s_length": i.setup.length,
-                        "i_data_requested": i.data_requested, "i_status_requested": i.status_requested,
-                        "i_ack": i.handshakes_in.ack, "i_tx_ready": i.tx.ready,
-                        "o_tx_valid": i.tx.valid, "o_tx_first": i.tx.first, "o_tx_last": i.tx.last, "o_tx_payload": i.tx.payload,
-                        "o_stall": i.handshakes_out.stall, "o_ack": i.handshakes_out.ack, "o_pid": i.tx_data_pid})
-        I, O = ts.inputs, ts.outputs
-        hd = made[-1]
-        hsig = {"start": hd.start, "start_position": hd.start_position, "value": hd.value, "length": hd.length, "stall": hd.stall,
-                "valid": hd.tx.valid, "first": hd.tx.first, "last": hd.tx.last, "payload": hd.tx.payload, "ready": hd.tx.ready}
-        h = lambda n: ts.of(hsig[n])
-        received, dreq, sreq, ack = (I[n] == 1 for n in ("s_received", "i_data_requested", "i_status_requested", "i_ack"))
-        stall = O["o_stall"] == 1
-        gd = c.ghost("in_get_descriptor", 1, init=0)          # a GET_DESCRIPTOR request is open (setup seen, no status/stall yet)
-        epos = c.ghost("acked_bytes", 11, init=0)             # max_packet * number of ACKed data packets of this request
-        exp = c.ghost("packet_awaiting_ack", 1, init=0)       # a data packet of this request was started and not yet ACKed
-        pid = c.ghost("expected_pid", 1, init=1)
-        isgd = gd == 1
-        closes = z3.Or(sreq, stall)
-        advance = z3.And(isgd, ack, exp == 1)
-        c.set_next(gd, z3.If(isgd, z3.If(closes, bvc(0, 1), bvc(1, 1)), z3.If(received, bvc(1, 1), bvc(0, 1))))
-        c.set_next(epos, z3.If(z3.Not(isgd), bvc(0, 11), z3.If(advance, epos + maxpkt, epos)))
-        c.set_next(exp, z3.If(z3.Not(isgd), bvc(0, 1), z3.If(stall, bvc(0, 1), z3.If(advance, bvc(0, 1), z3.If(dreq, bvc(1, 1), exp)))))
-        c.set_next(pid, z3.If(z3.Not(isgd), bvc(1, 1), z3.If(advance, ~pid, pid)))
-        c.require("only_get_descriptor_setups", z3.And(I["s_type"] == int(USBRequestType.STANDARD),
-                                                       I["s_request"] == int(USBStandardRequests.GET_DESCRIPTOR)),
-                  why="this contract covers GET_DESCRIPTOR handling only; other requests and their interleavings are C07/C10")
-        c.require("no_setup_inside_open_request", z3.Implies(isgd, z3.Not(received)),
-                  why="a new SETUP during an unfinished request is the subject of C07")
-        fsm = ts.fsm("fsm_state")
-        c.inv("fsm_legal", fsm.legal())
-        c.inv("state_is_get_descriptor_iff_open", fsm.is_("GET_DESCRIPTOR") == isgd)
-        c.inv("idle_otherwise", z3.Implies(z3.Not(isgd), fsm.is_("IDLE")))
-        c.inv("start_position_register", z3.Implies(isgd, reg(ts, "start_position") == epos))
-        # expecting_ack must mean "a data packet of THIS request awaits its ACK".  (On the unchanged tree the register is not
-        # cleared when a request closes, so it can be stale-high from an earlier request whose last ACK never came; an ACK
-        # seen before the first data packet of the next GET_DESCRIPTOR then advances start_position: finding, fix in
-        # proposed_fixes/C09_expecting_ack_reset.diff.)
-        c.inv("expecting_ack_register", z3.Implies(isgd, reg(ts, "expecting_ack") == exp))
-        c.inv("pid_register", z3.Implies(isgd, reg(ts, "tx_data_pid") == pid))
-        c.ensure("start_position_is_acked_packets_times_max_packet", z3.Implies(isgd, h("start_position") == epos),
-                 clause="read in max-packet-size pieces: start_position is 0 for the first packet of a request and advances by "
-                        "exactly max_packet_size for each ACKed data packet (and only then)")
-        c.ensure("handler_started_once_per_data_request", (h("start") == 1) == z3.And(isgd, dreq),
-                 clause="each IN token of the data stage starts exactly one packet of the descriptor handler")
-        c.ensure("request_fields_wired", z3.And(h("value") == I["s_value"], h("length") == I["s_length"]),
-                 clause="any request (type, index, wLength): the handler sees the setup packet's wValue and wLength")
-        c.ensure("handler_output_forwarded", z3.Implies(isgd, z3.And(
-            O["o_tx_valid"] == h("valid"), O["o_tx_first"] == h("first"), O["o_tx_last"] == h("last"),
-            O["o_tx_payload"] == h("payload"), O["o_stall"] == h("stall"), h("ready") == I["i_tx_ready"])),
-                 clause="the data stage is the handler's tx stream; a missing descriptor's stall becomes the STALL handshake")
-        c.ensure("silent_outside_get_descriptor", z3.Implies(z3.Not(isgd), z3.And(O["o_tx_valid"] == 0, O["o_stall"] == 0)),
-                 clause="(frame) nothing is sent for a request that is not open")
-        c.ensure("data_pid_toggles_per_acked_packet", z3.Implies(isgd, O["o_pid"] == pid),
-                 clause="(data toggle) DATA1 first, toggled once per ACKed packet")
-        c.cover("second_packet_started", z3.And(isgd, dreq, epos == maxpkt))
-        c.cover("third_packet_started", z3.And(isgd, dreq, epos == 2 * maxpkt))
-        c.cover("closed_by_stall", z3.And(isgd, stall))
-        c.cover("closed_by_status", z3.And(isgd, sreq, epos != 0))
-        c.cover_depth = 20
-        c.timeout_s = max(c.timeout_s, 240)
+        ports = {n: f(i) for n, f in SRH_IN.items()}
+        ports.update({n: f(i) for n, f in SRH_OUT.items()})
+        ts = c.unit(d, ports)
+        request_handler_body(c, ts, ts.inputs, ts.outputs, made[-1], maxpkt)
     return contract
 
 
@@ -573,6 +638,161 @@ def coll_minimal():
     return DeviceDescriptorCollection()
 
 
+# ======================================================================================================================
+#  Caller-side "parameter plumbing" obligations.
+#
+#  The contracts above prove each handler for a max packet size / descriptor collection / variant GIVEN TO ITS CONSTRUCTOR.
+#  Nothing there says that the code which builds the handlers passes its own parameters down:
+#      USBDevice.add_standard_control_endpoint(descriptors, **kw)          -> USBControlEndpoint(utmi)  [EP0 size: its default]
+#      USBControlEndpoint(max_packet_size=M).add_standard_request_handlers(descriptors, **kw)
+#                                                                          -> StandardRequestHandler(descriptors, max_packet_size=M, **kw)
+#      StandardRequestHandler.get_descriptor_handler_submodule()           -> GetDescriptorHandler{Block|Distributed|Mux}(.., max_packet_length=M)
+#      StandardRequestHandler: start_position += M per ACK
+#  The obligations below elaborate the REAL parent with NON-DEFAULT parameters, locate the real handler instances its
+#  elaborate() created (`ts.instance`), and re-prove the leaf contract bodies above on those instances' ports -- with the
+#  PARENT's parameter as the contract's max packet size and the collection handed to the PARENT as the reference.  The
+#  leaf assumptions are kept as assumptions at the instance's ports, except "start_position is a multiple of max packet",
+#  which is proved here from the parent's register.  Everything is decided on the netlist: no Python attribute that holds a
+#  parameter value is compared (the handler objects' `_descriptors` / `_handlers` are only used to write the abstraction map;
+#  a wrong map can only make an obligation fail).
+# ======================================================================================================================
+def path_of(ts, obj):
+    from .c10_unsupported_requests_stall import hier
+    return ".".join(hier(ts, obj))
+
+
+def instance_io(ts, d):
+    """port terms of a descriptor handler instance inside the netlist `ts` (same names as PORTS)"""
+    from .c10_unsupported_requests_stall import wires
+    of, _ = wires(ts)
+    sig = PORTS(d)
+    return ({n: of(x) for n, x in sig.items() if n.startswith("i_")}, {n: of(x) for n, x in sig.items() if n.startswith("o_")})
+
+
+def has_runtime_descriptors(coll):
+    return any(not isinstance(raw, (bytes, bytearray)) for _, _, raw in coll)
+
+
+class ControlPath:
+    """A real parent of the standard request handler, elaborated with the given parameters:
+         via="endpoint": USBControlEndpoint(utmi, max_packet_size=maxpkt).add_standard_request_handlers(coll, **kwargs)
+         via="device"  : USBDevice(bus=utmi).add_standard_control_endpoint(coll, **kwargs)   (EP0 size: what the device builds)
+         via="serial"  : USBSerialDevice(bus=utmi) with its own create_descriptors()
+       and the real StandardRequestHandler / descriptor handler instances inside it."""
+
+    def __init__(self, c, via, coll_fn, maxpkt, kwargs):
+        from luna.gateware.usb.request.standard import StandardRequestHandler
+        from luna.gateware.usb.usb2.control import USBControlEndpoint
+        from luna.gateware.interface.utmi import UTMIInterface
+        from .c10_unsupported_requests_stall import control_endpoint_ports, hier
+        utmi = UTMIInterface()
+        devports = lambda: {n_: getattr(utmi, n_) for n_ in ("rx_data", "rx_active", "rx_valid", "tx_ready", "line_state", "session_end")}
+        if via == "endpoint":
+            self.coll = coll = coll_fn()
+            top = USBControlEndpoint(utmi=utmi, max_packet_size=maxpkt)
+            top.add_standard_request_handlers(coll, **kwargs)
+            ports = control_endpoint_ports(top)
+        elif via == "device":
+            from luna.gateware.usb.usb2.device import USBDevice
+            self.coll = coll = coll_fn()
+            top = USBDevice(bus=utmi)
+            top.add_standard_control_endpoint(coll, **kwargs)
+            ports = dict(devports(), connect=top.connect, low_speed_only=top.low_speed_only, full_speed_only=top.full_speed_only)
+        else:
+            from luna.gateware.usb.devices.acm import USBSerialDevice
+            top = USBSerialDevice(bus=utmi, idVendor=0x16d0, idProduct=0x0f3b, **kwargs)
+            self.coll = coll = top.create_descriptors()
+            ports = dict(devports(), connect=top.connect, o_ready=top.rx.ready, i_valid=top.tx.valid, i_payload=top.tx.payload,
+                         i_first=top.tx.first, i_last=top.tx.last)
+        self.top, self.maxpkt = top, maxpkt
+        ts = self.ts = c.unit(top, ports)
+        self.srh = srh = ts.instance(StandardRequestHandler)
+        self.ce = ts.instance(USBControlEndpoint)
+        below = [h for cls in (GetDescriptorHandlerBlock, GetDescriptorHandlerDistributed, GetDescriptorHandlerMux)
+                 for h in ts.instances(cls) if hier(ts, h)[:-1] == hier(ts, srh)]
+        c.lemma("one_descriptor_handler_below_the_standard_request_handler", z3.BoolVal(len(below) == 1),
+                clause="(structural) the standard request handler the parent builds contains exactly one GET_DESCRIPTOR handler")
+        self.gd = below[0]
+        # which variant the documented meaning of the parameters selects
+        ab = kwargs.get("avoid_blockram") if via != "serial" else None
+        if ab is None:
+            ab = bool(os.getenv("LUNA_AVOID_BLOCKRAM", False))
+        want = GetDescriptorHandlerDistributed if ab else \
+            (GetDescriptorHandlerMux if has_runtime_descriptors(coll) else GetDescriptorHandlerBlock)
+        c.lemma("handler_variant_is_the_one_avoid_blockram_selects", z3.BoolVal(type(self.gd) is want),
+                clause=f"(structural) either descriptor handler (block-RAM ROM or the block-RAM-free variant): avoid_blockram={ab!r}"
+                       f"{', runtime descriptors present' if has_runtime_descriptors(coll) else ''} reaches the standard request handler "
+                       f"and selects {want.__name__}; the parent built {type(self.gd).__name__}")
+
+
+def advertised_ep0_size(coll):
+    """bMaxPacketSize0 of the collection's device descriptor (None if it has none)"""
+    for t, i, raw in coll:
+        if int(t) == 1 and isinstance(raw, (bytes, bytearray)):
+            return bytes(raw)[7]
+    return None
+
+
+def make_plumbing_packets(via, coll_fn, maxpkt, kwargs=None, start_cover_depth=None):
+    """Per-packet clauses of C09 re-proved on the GET_DESCRIPTOR handler INSTANCE inside the real parent, for the parent's
+    max packet size `maxpkt` (via="endpoint": the constructor parameter; "device"/"serial": the EP0 size these parents build
+    their control endpoint with, 64) and the collection handed to the parent.  Whatever variant the parent built is
+    contracted (so the packet clauses are decided for it); that it is the variant `avoid_blockram` asks for is a lemma."""
+    kwargs = dict(kwargs or {})
+
+    def contract(c):
+        P = ControlPath(c, via, coll_fn, maxpkt, kwargs)
+        ts, gd, coll = P.ts, P.gd, P.coll
+        keys = keys_of(coll)
+        I, O = instance_io(ts, gd)
+        prefix = path_of(ts, gd) + "."
+        kw = dict(instance=True)
+        if via != "endpoint":
+            c.lemma("control_endpoint_packet_size_is_the_advertised_bMaxPacketSize0", z3.BoolVal(advertised_ep0_size(coll) in (None, maxpkt)),
+                    clause=f"each packet is at most the max packet size: the clauses below are proved for {maxpkt}, the EP0 size the "
+                           f"device descriptor handed to the parent advertises ({advertised_ep0_size(coll)})")
+        # the part of the leaf assumption `legal_continuation_offset` that is the parent's own doing
+        c.inv("start_position_is_multiple_of_max_packet", multiple(ts.of(gd.start_position), maxpkt))
+        if isinstance(gd, GetDescriptorHandlerBlock):
+            s = block_body(c, ts, I, O, gd, keys, maxpkt, prefix=prefix, **kw)
+        elif isinstance(gd, GetDescriptorHandlerDistributed):
+            s = distributed_body(c, ts, I, O, gd._descriptors, keys, maxpkt, prefix=prefix, **kw)
+        else:
+            ha = [h for h in gd._handlers if isinstance(h, GetDescriptorHandlerBlock)]
+            hb = [h for h in gd._handlers if isinstance(h, GetDescriptorHandlerDistributed)]
+            c.lemma("multiplexer_holds_one_block_and_one_distributed_handler",
+                    z3.BoolVal(len(ha) == 1 and len(hb) == 1 and list(gd._handlers) == ha + hb))
+            s = mux_body(c, ts, I, O, ha[0], hb[0], ha[0]._descriptors, hb[0]._descriptors, keys, maxpkt, prefix=prefix,
+                         pa=path_of(ts, ha[0]) + ".", pb=path_of(ts, hb[0]) + ".", **kw)
+        # vacuity from reset, through the whole parent: a read of an existing descriptor is started at the instance
+        if start_cover_depth:
+            c.cover("descriptor_read_started_inside_the_parent", z3.And(s.start_accept, s.exists))
+            c.cover_depth = start_cover_depth
+        c.bmc_depth = max(c.bmc_depth, 48)
+    return contract
+
+
+def make_plumbing_stride(via, coll_fn, maxpkt, kwargs=None, open_cover_depth=None):
+    """start_position / PID advance of C09 re-proved on the StandardRequestHandler INSTANCE inside the real parent: the
+    continuation offset advances by the PARENT's max packet size per acknowledged packet."""
+    kwargs = dict(kwargs or {})
+
+    def contract(c):
+        from .c10_unsupported_requests_stall import wires
+        P = ControlPath(c, via, coll_fn, maxpkt, kwargs)
+        ts, srh, gd = P.ts, P.srh, P.gd
+        of, _ = wires(ts)
+        i = srh.interface
+        I = {n: of(f(i)) for n, f in SRH_IN.items()}
+        O = {n: of(f(i)) for n, f in SRH_OUT.items()}
+        isgd, epos = request_handler_body(c, ts, I, O, gd, maxpkt, prefix=path_of(ts, srh) + ".", reach=False)
+        if open_cover_depth:
+            c.cover("get_descriptor_request_opened_inside_the_parent", isgd)
+            c.cover_depth = open_cover_depth
+        c.bmc_depth = max(c.bmc_depth, 48)
+    return contract
+
+
 def contracts(tier):
     only = os.environ.get("HWV_C09_ONLY")              # development aid: restrict to units whose name contains this
     for unit, cfg, fn in _contracts(tier):
@@ -602,3 +822,26 @@ def _contracts(tier):
                make_mux(mux_of_request_handler(coll_with_runtime), mp))
     for mp in ((8,) if quick else (8, 16, 32, 64)):
         yield ("GetDescriptorHandlerDistributed", f"small_maxpkt{mp}", make_distributed(coll_small, mp))
+    # ---- caller side: the parents' parameters reach the handlers they build (non-default max packet sizes)
+    AB, BR = {"avoid_blockram": True}, {"avoid_blockram": False}
+    pk, st = make_plumbing_packets, make_plumbing_stride
+    yield ("USBControlEndpoint", "plumbing_packets_block_small_maxpkt8", pk("endpoint", coll_small, 8, start_cover_depth=22))
+    yield ("USBControlEndpoint", "plumbing_packets_distributed_small_maxpkt16", pk("endpoint", coll_small, 16, AB))
+    yield ("USBControlEndpoint", "plumbing_stride_block_small_maxpkt8", st("endpoint", coll_small, 8, open_cover_depth=20))
+    yield ("USBControlEndpoint", "plumbing_stride_distributed_small_maxpkt16", st("endpoint", coll_small, 16, AB))
+    # USBDevice.add_standard_control_endpoint(descriptors, **kwargs): the keyword arguments reach the request handler, and the
+    # control endpoint the device builds serves the collection in packets of the EP0 size it advertises (64)
+    yield ("USBDevice", "plumbing_packets_distributed_small_maxpkt64", pk("device", coll_small, 64, AB))
+    if not quick:
+        yield ("USBDevice", "plumbing_packets_block_small_maxpkt64", pk("device", coll_small, 64, BR))
+        yield ("USBDevice", "plumbing_stride_block_small_maxpkt64", st("device", coll_small, 64, BR))
+        for mp in (8, 16, 32):
+            yield ("USBControlEndpoint", f"plumbing_packets_mux_runtime_maxpkt{mp}", pk("endpoint", coll_with_runtime, mp, BR))
+            yield ("USBControlEndpoint", f"plumbing_stride_mux_runtime_maxpkt{mp}", st("endpoint", coll_with_runtime, mp, BR))
+            if mp != 8:
+                yield ("USBControlEndpoint", f"plumbing_packets_block_small_maxpkt{mp}", pk("endpoint", coll_small, mp))
+                yield ("USBControlEndpoint", f"plumbing_stride_block_small_maxpkt{mp}", st("endpoint", coll_small, mp))
+            if mp != 16:
+                yield ("USBControlEndpoint", f"plumbing_packets_distributed_small_maxpkt{mp}", pk("endpoint", coll_small, mp, AB))
+                yield ("USBControlEndpoint", f"plumbing_stride_distributed_small_maxpkt{mp}", st("endpoint", coll_small, mp, AB))
+        yield ("USBControlEndpoint", "plumbing_packets_distributed_big_maxpkt32", pk("endpoint", coll_big, 32, AB))
